@@ -35,6 +35,8 @@ import (
 //   E7  if A { if B {S} } (no else) stands for if A && B {S}
 //   E9  `v := e` directly followed by the only statement using v once stands
 //       for that statement with e in place of v
+//   E10 `return recv.h(...)` where h is an unexported straight-line method of
+//       the hand-written files stands for h's body
 //   E8  buffer primitives: Cap()/Reset()/Take*() vs cap/[:0]/conversion;
 //       WriteByte(x) vs append(buf, x); result type RedactableString vs string
 
@@ -52,6 +54,107 @@ var redactNames = map[string]bool{
 type auditor struct {
 	pkgAliases map[string]bool // import names of the redact-specific packages
 	own        map[string]bool // unexported names declared in the hand-written files of the package
+	ownFuncs   map[string]*ast.FuncDecl // their method declarations (for E10)
+}
+
+// ownMethods parses the hand-written files and returns the unexported
+// methods declared there, by name.
+func ownMethods(dir string) map[string]*ast.FuncDecl {
+	out := map[string]*ast.FuncDecl{}
+	files, _ := filepath.Glob(filepath.Join(dir, "*.go"))
+	for _, fn := range files {
+		b := filepath.Base(fn)
+		if b == "print.go" || b == "format.go" || strings.HasSuffix(b, "_test.go") {
+			continue
+		}
+		f, err := parser.ParseFile(token.NewFileSet(), fn, nil, 0)
+		if err != nil {
+			continue
+		}
+		for _, d := range f.Decls {
+			if fd, ok := d.(*ast.FuncDecl); ok && fd.Recv != nil && fd.Body != nil && !ast.IsExported(fd.Name.Name) {
+				out[fd.Name.Name] = fd
+			}
+		}
+	}
+	return out
+}
+
+// inlineOwnReturn applies E10: `return recv.h(ident...)` where h is an
+// unexported method of the hand-written files whose body is a statement list
+// ending in its only return stands for that body, receiver and parameters
+// renamed (a tail of an entry point moved into a helper).
+func (a *auditor) inlineOwnReturn(list []ast.Stmt) []ast.Stmt {
+	if len(list) == 0 || a.ownFuncs == nil {
+		return list
+	}
+	ret, ok := list[len(list)-1].(*ast.ReturnStmt)
+	if !ok || len(ret.Results) != 1 {
+		return list
+	}
+	call, ok := ret.Results[0].(*ast.CallExpr)
+	if !ok {
+		return list
+	}
+	sel, ok := call.Fun.(*ast.SelectorExpr)
+	if !ok {
+		return list
+	}
+	recvID, ok := sel.X.(*ast.Ident)
+	if !ok {
+		return list
+	}
+	h := a.ownFuncs[sel.Sel.Name]
+	if h == nil || len(h.Recv.List) != 1 || len(h.Recv.List[0].Names) != 1 || len(h.Body.List) == 0 {
+		return list
+	}
+	// only return: the last statement
+	nret := 0
+	ast.Inspect(h.Body, func(n ast.Node) bool {
+		if _, ok := n.(*ast.ReturnStmt); ok {
+			nret++
+		}
+		return true
+	})
+	if _, last := h.Body.List[len(h.Body.List)-1].(*ast.ReturnStmt); nret != 1 || !last {
+		return list
+	}
+	ren := map[string]string{h.Recv.List[0].Names[0].Name: recvID.Name}
+	var params []string
+	for _, f := range h.Type.Params.List {
+		for _, n := range f.Names {
+			params = append(params, n.Name)
+		}
+	}
+	if len(params) != len(call.Args) {
+		return list
+	}
+	for i, arg := range call.Args {
+		id, ok := arg.(*ast.Ident)
+		if !ok {
+			return list
+		}
+		ren[params[i]] = id.Name
+	}
+	// copy the body by printing and re-parsing (keeps the helper's AST intact)
+	var buf bytes.Buffer
+	if err := printer.Fprint(&buf, token.NewFileSet(), h.Body); err != nil {
+		return list
+	}
+	expr, err := parser.ParseExpr("func()" + buf.String())
+	if err != nil {
+		return list
+	}
+	body := expr.(*ast.FuncLit).Body
+	ast.Inspect(body, func(n ast.Node) bool {
+		if id, ok := n.(*ast.Ident); ok {
+			if r, ok := ren[id.Name]; ok {
+				id.Name = r
+			}
+		}
+		return true
+	})
+	return append(append([]ast.Stmt{}, list[:len(list)-1]...), body.List...)
 }
 
 // ownNames collects the unexported top-level names (functions, methods,
@@ -648,6 +751,7 @@ func (a *auditor) auditFuncs(name, src, side string) (map[string][]string, error
 		}
 		fd.Doc = nil
 		if side == "fork" {
+			fd.Body.List = a.inlineOwnReturn(fd.Body.List)
 			fd.Body.List = a.eraseStmts(fd.Body.List)
 			for k := 0; k < 3; k++ {
 				dropUnused(fd.Body)
@@ -694,7 +798,7 @@ func ruleC04a3(c *Ctx) []*report.Result {
 			r.Undecide("cannot read " + f)
 			continue
 		}
-		a := &auditor{own: own}
+		a := &auditor{own: own, ownFuncs: ownMethods(filepath.Join(c.P.Dir, "internal/rfmt"))}
 		fork, err1 := a.auditFuncs(f, string(cur), "fork")
 		if err1 != nil {
 			r.Undecide(fmt.Sprintf("cannot parse %s: %v", f, err1))
